@@ -93,7 +93,9 @@ pub fn ingest(t: &mut Toks) -> String {
             loop {
                 let w = VERIF_INGEST_STATE.load(Ordering::SeqCst);
                 let (recv, q, infl) = (w >> 32, (w >> 16) & 0xffff, w & 0xffff);
-                if recv == want_received && ((held && infl <= 1) || (!held && q == 0 && infl == 0)) {
+                // while the connection is held: the first queued change has been spawned into the
+                // (blocked) batch, everything else waits in the queue
+                if recv == want_received && ((held && (infl == 1 || (q == 0 && infl == 0))) || (!held && q == 0 && infl == 0)) {
                     break;
                 }
                 if t0.elapsed() > Duration::from_secs(20) {
